@@ -45,6 +45,13 @@ impl SwiftField for Field32A {
     where
         Self: Sized,
     {
+        // The parser works with byte offsets: refuse multi-byte characters up front
+        if !input.is_ascii() {
+            return Err(ParseError::InvalidFormat {
+                message: "Field 32A must contain only ASCII characters".to_string(),
+            });
+        }
+
         // Field32A format: 6!n3!a15d (date + currency + amount)
         if input.len() < 10 {
             // Minimum: 6 digits date + 3 chars currency + 1 digit amount
@@ -114,6 +121,13 @@ impl SwiftField for Field32B {
     where
         Self: Sized,
     {
+        // The parser works with byte offsets: refuse multi-byte characters up front
+        if !input.is_ascii() {
+            return Err(ParseError::InvalidFormat {
+                message: "Field 32B must contain only ASCII characters".to_string(),
+            });
+        }
+
         // Field32B format: 3!a15d (currency + amount)
         if input.len() < 4 {
             // Minimum: 3 chars currency + 1 digit amount
@@ -200,6 +214,13 @@ impl SwiftField for Field32C {
     where
         Self: Sized,
     {
+        // The parser works with byte offsets: refuse multi-byte characters up front
+        if !input.is_ascii() {
+            return Err(ParseError::InvalidFormat {
+                message: "Field 32C must contain only ASCII characters".to_string(),
+            });
+        }
+
         // Same format as Field32A
         if input.len() < 10 {
             return Err(ParseError::InvalidFormat {
@@ -267,6 +288,13 @@ impl SwiftField for Field32D {
     where
         Self: Sized,
     {
+        // The parser works with byte offsets: refuse multi-byte characters up front
+        if !input.is_ascii() {
+            return Err(ParseError::InvalidFormat {
+                message: "Field 32D must contain only ASCII characters".to_string(),
+            });
+        }
+
         // Same format as Field32A
         if input.len() < 10 {
             return Err(ParseError::InvalidFormat {
@@ -333,6 +361,13 @@ impl SwiftField for Field32 {
     where
         Self: Sized,
     {
+        // The parser works with byte offsets: refuse multi-byte characters up front
+        if !input.is_ascii() {
+            return Err(ParseError::InvalidFormat {
+                message: "Field 32 must contain only ASCII characters".to_string(),
+            });
+        }
+
         // Try to determine variant based on content
         // If it starts with 6 digits (date), it's A, C, or D
         // Otherwise it's B (currency + amount only)
